@@ -41,7 +41,7 @@ type e1Scen struct {
 	Pre     int    `json:"pre,omitempty"`   // regular segments fed before the explored word
 	Start   int64  `json:"start,omitempty"` // start time of every track in milliseconds (may be negative)
 	Period  int    `json:"period,omitempty"`
-	Len     int    `json:"len,omitempty"`   // periodic / long: number of writes
+	Len     int    `json:"len,omitempty"` // periodic / long: number of writes
 	Query   string `json:"query,omitempty"`
 	FaultAt int    `json:"fault_at,omitempty"` // mode "fault": index (1-based) of the rotation whose next segment file cannot be created
 	Shard   int    `json:"shard"`
